@@ -176,3 +176,4 @@ async def test_stale_telegram_suppresses_read_of_reconnection() -> None:
 
 
 if __name__ == "__main__":
+    raise SystemExit(pytest.main(["-q", "-p", "no:cacheprovider", __file__]))
